@@ -217,7 +217,7 @@ def expand(m, f, row):
         glo, ghi = row["within"]
         for c in range(1 << row["field"]["w"]):
             rel = row["rel"]
-            lo, hi = (c + 1, ghi) if rel == ">" else (glo, c - 1)
+            lo, hi = {">": (c + 1, ghi), "<": (glo, c - 1), ">=": (c, ghi), "<=": (glo, c)}[rel]
             if lo > hi:
                 continue
             a = dict(base_a)
